@@ -5,13 +5,15 @@ import time
 from . import e2parts
 from .automaton import Aut
 from .common import Timer, match_known, save_replay, seed, tier
-from .e1check import E1Outcome, e1_coverage, finish, run_toktrie_groups
+from . import parser_props as pp
+from .e1check import E1Outcome, e1_coverage, finish, run_parser_groups, run_toktrie_groups
 
 ASSUMPTIONS = [
     "K13.2: TokTrie::add_bias(r, set, start) for every transition-table acceptor (2 states; 3 on the tiny table) and every start prefix of 1-2 symbolic bytes over the vocabulary families: bit t set <=> t non-empty and (t is a prefix of start, or start is a prefix of t and the acceptor takes the rest byte by byte); has_valid_extensions agrees",
     "E2-13.3: for every state of every exported lexer automaton and a symbolic byte: next_byte == ForcedByte(c) => every other byte and end-of-input are dead; ForcedEOI => every byte is dead (SomeBytes* hints carry no guarantee and are probed by forced_byte)",
     "K13.1: chop_tokens as a whole does not fit CBMC (12.9 GB at 400 s on a 4-word vocabulary even with format! stubbed). Decided instead: its token/byte accounting loop, cut out of the current source (between `let chop_bytes = suff.len();` and `unreachable!();`) and run for every combination of 1-4 token lengths in 1..6 and every suffix length: the returned byte count is exactly the length of the dropped tokens, they cover the suffix, and one token fewer would not. The suffix search itself is has_valid_extensions (decided above)",
-    "outside the claim: forced_byte's 256-byte probe over the parser, force_bytes, ff_tokens, process_prompt (need the parser state)",
+    "K13.3: the probe of ParserState::forced_byte — the statements of its speculative closure after `let mut r = ParserRecognizer { state };`, cut from the current source — run against a mock recogniser with a symbolic set of viable bytes (all 2^256 sets) and every lexer hint (ForcedEOI, SomeBytes0/1/2 with distinct example bytes, Dead): it answers Some(b) exactly when b is the only viable byte. What try_push_byte itself answers is the Earley parser's and is outside",
+    "outside the claim: try_push_byte / the Earley rows behind the probe, force_bytes, ff_tokens, process_prompt (need the parser state)",
 ]
 
 
@@ -77,7 +79,13 @@ def run():
     def sel(s):
         n = s["name"]
         return ("_l1" in n or "_l2" in n) and ("k16_3_walk" in n or "hasext" in n)
-    info, fams = run_toktrie_groups("C13", "c13", {"walk", "hasext"}, out, select=sel, extra_specs=None, harness_timeout_s=900, chop=True)
+    # the forced_byte probe (source slice, llguidance crate) runs next to the toktrie group: separate overlays and target directories
+    from concurrent.futures import ThreadPoolExecutor
+    with ThreadPoolExecutor(max_workers=2) as ex:
+        fp = ex.submit(run_parser_groups, "C13", "c13p", ["parser"], pp.specs("parser", "c13", "c13_fail"), out, 4, 1500)
+        info, fams = run_toktrie_groups("C13", "c13", {"walk", "hasext"}, out, select=sel, extra_specs=None, harness_timeout_s=900, chop=True, jobs=12)
+        infop = fp.result()
+    info["kani_wall_s_parser_crate"] = infop.get("kani_wall_s", 0)
     try:
         st = hint_e2(out, t, sd)
     except RuntimeError as ex:
@@ -85,7 +93,7 @@ def run():
         st = {}
     cov = e1_coverage(out, [dict(vocabulary=f["name"], words=[bytes(w).decode("latin-1") for w in f["words"]]) for f in fams[:6]] or [dict(note="none")],
                       ["toktrie::toktree::TokTrie::{add_bias (start != ''), add_bias_inner, has_valid_extensions, child_at_bytes}, FixedRecognizer",
-                       "earley/regexvec.rs next_byte (hint) vs transition table of every exported lexer automaton"],
+                       "earley/parser.rs ParserState::forced_byte probe loop (source slice)", "earley/regexvec.rs next_byte (hint) vs transition table of every exported lexer automaton"],
                       dict(start_len=[1, 2], acceptor_states=[2, 3]), dict(tier=t, e2_hints=st, **info))
     cov["evaluations"] += st.get("queries", 0)
     cov["distinct_nontrivial"] += st.get("automata", 0)
